@@ -193,10 +193,15 @@ def gen_plan_c19_enum(rng: Rng, tier: str, what: str) -> Dict[str, Any]:
     out = rng.choice(["cp/g", "deep/er/dir/g"])
     load = _load_op(rng, inc)
     if what == "save":
+        edit = rng.chance(0.7)
+        what_if = [{"op": "cp_reweight", "graph": 0, "edits": gen_edits(rng)}, {"op": "cp_recompute", "graph": 0}] if edit else []
         a_ops = [load, analyze, {"op": "cp_breakdown", "graph": 0},
-                 {"op": "cp_save", "graph": 0, "out_dir": out},      # <- target: op 3 of session 0
-                 {"op": "cp_save", "graph": 0, "out_dir": out}]
-        b_ops = [dict(load), dict(analyze), {"op": "cp_breakdown", "graph": 0},
+                 {"op": "cp_save", "graph": 0, "out_dir": out}]      # <- target: op 3 of session 0
+        a_ops += what_if + [{"op": "cp_breakdown", "graph": 0}, {"op": "cp_save", "graph": 0, "out_dir": out},
+                            {"op": "cp_restore", "zip": out + ".zip", "rank": rank},
+                            {"op": "cp_breakdown", "graph": 1}, {"op": "cp_recompute", "graph": 1}]
+        b_ops = [dict(load), dict(analyze)] + [dict(o) for o in what_if] + [
+                 {"op": "cp_breakdown", "graph": 0},
                  {"op": "cp_save", "graph": 0, "out_dir": out},
                  {"op": "cp_restore", "zip": out + ".zip", "rank": rank},
                  {"op": "cp_breakdown", "graph": 1}, {"op": "cp_recompute", "graph": 1}]
